@@ -293,6 +293,14 @@ class Lane(LaneBase):
             g = gen.build_dag(n, case['edges'])
         hn, he = hxlist(names), hxedges(edges)
         lines, impl, oracle, tags = [], [], [], [f'kind={case["kind"]}', f'n={n}', f'm={len(edges)}']
+        if case['kind'] == 'dag' and n >= 3:
+            others = lambda x, y: [z for z in names if z not in (getattr(x, 'identifier', x), getattr(y, 'identifier', y))][:1]
+            oracle += gen.nodeform_agree(g, names, [
+                ('is_d_separated', lambda x, y: g.is_d_separated(x, y, set(others(x, y)))),
+                ('is_d_separated(list forms)', lambda x, y: g.is_d_separated([x], [y], others(x, y))),
+                ('is_minimally_d_separated', lambda x, y: g.is_minimally_d_separated(x, y, set(others(x, y)))),
+                ('get_d_separation_set', lambda x, y: (g.get_d_separation_set(x, y) is not None) if not (g.edge_exists(x, y) or g.edge_exists(y, x)) else None),
+            ], key=('c11', n, tuple(map(tuple, case['edges']))))
         bf = BF(names, edges) if case['kind'] == 'dag' else None
         answers = set()
         counter = [rng.randrange(24)]
